@@ -62,10 +62,12 @@ ROOT = b'/r'
 
 
 class FsEntry:
-    __slots__ = ('path', 'kind', 'content', 'mtime', 'idx')
+    """kind / content / mtime describe what the path resolves to (symlinks followed, as metadata / open see it); `link` says that
+    the last component is itself a symbolic link whose text is `target` (only in filesystems created with symlinks=True)"""
+    __slots__ = ('path', 'kind', 'content', 'mtime', 'idx', 'link', 'target')
 
-    def __init__(s, path, kind, content, mtime, idx):
-        s.path = path; s.kind = kind; s.content = content; s.mtime = mtime; s.idx = idx
+    def __init__(s, path, kind, content, mtime, idx, link=None, target=None):
+        s.path = path; s.kind = kind; s.content = content; s.mtime = mtime; s.idx = idx; s.link = link; s.target = target
 
 
 def skey(s):
@@ -106,14 +108,23 @@ def fs_lookup(ex, st, path, op):
         content = SymStr.fresh(ex.fresh(tag + '_data'), cfg['content_cap'], cons)
         mtime = z3.BitVec(ex.fresh(tag + '_mtime'), 128)
     cons.append(z3.ULT(mtime, 1000000))
+    link = target = None
+    if cfg.get('symlinks'):
+        # the last component may be a symbolic link to a sibling name (relative target without separators, 1 byte from {a, b});
+        # a dangling link behaves like an absent path and is not distinguished
+        link = z3.Bool((tag if cfg.get('shared_names') else ex.fresh(tag)) + '_link')
+        target = SymStr.fresh((tag if cfg.get('shared_names') else ex.fresh(tag)) + '_tgt', 1, cons, exact_len=1, alphabet=[0x61, 0x62], stable_name=bool(cfg.get('shared_names')))
+        cons.append(z3.Implies(link, kind != K_ABSENT))
     if cfg.get('fixed'):
         # concrete tree given by the harness: dict path bytes -> ('file', bytes) | ('dir',)
         raise Unsupported('fixed tree lookups are resolved before reaching here')
-    ent = FsEntry(path, kind, content, mtime, i)
+    ent = FsEntry(path, kind, content, mtime, i, link, target)
     for e in entries:
         same = path.eq(e.path)
         if same is False: continue
         cons.append(z3.Implies(zb(same), z3.And(kind == e.kind, zb(content.eq(e.content)), mtime == e.mtime)))
+        if link is not None and e.link is not None:
+            cons.append(z3.Implies(zb(same), z3.And(link == e.link, zb(target.eq(e.target)))))
     hook = cfg.get('on_new')
     if hook is not None: cons.extend(hook(ent))
     st.pc.extend(cons)
@@ -129,8 +140,8 @@ def fs_concrete_lookup(st, path):
     return tree.get(p)
 
 
-def new_fs(content_cap=4, tag='fs', on_new=None, fixed=None, shared_names=False):
-    return {'cfg': {'content_cap': content_cap, 'on_new': on_new, 'fixed': fixed, 'shared_names': shared_names}, 'entries': (), 'tag': tag}
+def new_fs(content_cap=4, tag='fs', on_new=None, fixed=None, shared_names=False, symlinks=False):
+    return {'cfg': {'content_cap': content_cap, 'on_new': on_new, 'fixed': fixed, 'shared_names': shared_names, 'symlinks': symlinks}, 'entries': (), 'tag': tag}
 
 
 def io_error(): return Opaque('std::io::Error')
@@ -188,7 +199,8 @@ def kind_is(e, k):
 def m_fs_metadata(ex, st, c):
     e = lookup(ex, st, as_str(ex, st, c.args[0]), 'metadata')
     absent = kind_is(e, K_ABSENT)
-    return Fork([(absent, Err(io_error())), (b_not(absent), Ok(Opaque('Metadata', e)))])
+    nofollow = 'symlink_metadata' in c.callee and e.link is not None
+    return Fork([(absent, Err(io_error())), (b_not(absent), Ok(Opaque('MetadataNF' if nofollow else 'Metadata', e)))])
 
 
 @model(r'^File::open$', r'^std::fs::File::open$')
@@ -204,11 +216,15 @@ def m_file_metadata(ex, st, c):
 
 
 @model(r'^Metadata::is_dir$', r'^std::fs::Metadata::is_dir$')
-def m_md_is_dir(ex, st, c): return kind_is(D(ex, st, c.args[0]).data, K_DIR)
+def m_md_is_dir(ex, st, c):
+    md = D(ex, st, c.args[0]); r = kind_is(md.data, K_DIR)
+    return b_and(r, b_not(md.data.link)) if md.tag == 'MetadataNF' else r
 
 
 @model(r'^Metadata::is_file$', r'^std::fs::Metadata::is_file$')
-def m_md_is_file(ex, st, c): return kind_is(D(ex, st, c.args[0]).data, K_FILE)
+def m_md_is_file(ex, st, c):
+    md = D(ex, st, c.args[0]); r = kind_is(md.data, K_FILE)
+    return b_and(r, b_not(md.data.link)) if md.tag == 'MetadataNF' else r
 
 
 @model(r'^Metadata::len$', r'^std::fs::Metadata::len$')
@@ -219,11 +235,16 @@ def m_md_len(ex, st, c):
 
 
 @model(r'^Metadata::file_type$')
-def m_md_file_type(ex, st, c): return Opaque('FileType', D(ex, st, c.args[0]).data)
+def m_md_file_type(ex, st, c):
+    md = D(ex, st, c.args[0])
+    return Opaque('FileTypeNF' if md.tag == 'MetadataNF' else 'FileType', md.data)
 
 
 @model(r'^FileType::is_symlink$', r'^std::fs::FileType::is_symlink$')
-def m_ft_is_symlink(ex, st, c): return False     # symlinks are absent from the model (stated; the property exempts owner-placed links)
+def m_ft_is_symlink(ex, st, c):
+    ft = D(ex, st, c.args[0])
+    if ft.tag == 'FileTypeNF' and ft.data.link is not None: return ft.data.link
+    return False     # without symlinks=True the model has no symbolic links (stated per check)
 
 
 @model(r'^Path::is_file$', r'^std::path::Path::is_file$')
@@ -239,7 +260,8 @@ def m_path_is_dir(ex, st, c):
 
 @model(r'^Path::is_symlink$')
 def m_path_is_symlink(ex, st, c):
-    lookup(ex, st, as_str(ex, st, c.args[0]), 'metadata'); return False
+    e = lookup(ex, st, as_str(ex, st, c.args[0]), 'metadata')
+    return e.link if e.link is not None else False
 
 
 @model(r'^Metadata::modified$')
@@ -326,7 +348,23 @@ def m_read_to_string(ex, st, c):
 
 @model(r'^std::fs::read_link$', r'^fs::read_link$', r'^read_link$')
 def m_read_link(ex, st, c):
-    lookup(ex, st, as_str(ex, st, c.args[0]), 'metadata'); return Err(io_error())
+    p = as_str(ex, st, c.args[0])
+    e = lookup(ex, st, p, 'metadata')
+    if e.link is None: return Err(io_error())
+
+    def linked(st_):
+        # the link's text names a sibling: what the path resolves to IS the entry <directory of the link>/<target>
+        f = p.flat(); found = False; idx = 0
+        for i in range(f.cap):
+            m = b_and(bv_ult(i, f.ln, LW), bv_eq(f.bs[i], 0x2f, 8))
+            if m is False: continue
+            idx = ite_bv(m, i, idx, LW); found = b_or(found, m)
+        d = p.substr(0, idx)
+        r = d.concat(SymStr.const(b'/')).concat(e.target)
+        e2 = fs_lookup(ex, st_, r, 'model-resolve')
+        st_.pc.append(z3.And(e2.kind == e.kind, zb(e2.content.eq(e.content)), e2.mtime == e.mtime, z3.Not(e2.link) if e2.link is not None else True, zb(found)))
+        return Ok(e.target)
+    return Fork([(e.link, LazyR(linked)), (z3.Not(e.link), Err(io_error()))])
 
 
 MUTATORS = r'^(std::)?(fs::)?(File::create|File::create_new|OpenOptions::.*|remove_file|remove_dir|remove_dir_all|rename|create_dir|create_dir_all|copy|set_permissions|write|hard_link|std::os::unix::fs::symlink|File::set_len|File::set_permissions)$'
